@@ -5,7 +5,7 @@ from ..common import *
 ID = "C12"
 LEVEL = "proof"
 LEAN_MODULE = "Frost.Props.C12"
-THEOREMS = ["Frost.C12.decVarint_encVarint", "Frost.C12.decU16_encU16", "Frost.C12.decUsize_encUsize", "Frost.C12.header_accept_iff", "Frost.C12.header_reject", "Frost.C12.keyPackage_needs_header", "Frost.C12.rt_commitments", "Frost.C12.rt_nonces", "Frost.C12.rt_package", "Frost.C12.rt_secretShare", "Frost.C12.rt_keyPackage", "Frost.C12.rt_publicKeyPackage", "Frost.C12.rt_round1Package", "Frost.C12.rt_round2Package", "Frost.C12.rt_round1Secret", "Frost.C12.rt_round2Secret", "Frost.C12.default_signature_laws", "Frost.C12.ofList_sorted", "Frost.C12.primScalar_canonical", "Frost.C12.primElem_canonical", "Frost.C12.primScalar_injective", "Frost.C12.primElem_injective", "Frost.C12.signature_canonical", "Frost.C12.signature_wrong_length", "Frost.C12.identifier_rejects_zero", "Frost.C12.signingKey_rejects_zero", "Frost.C12.prim_wrong_length", "Frost.C12.fq_laws_le", "Frost.C12.fq_laws_be", "Frost.C12.ed448_scalar_last_byte", "Frost.C12.sec1_tag", "Frost.C12.sec1_canonical", "Frost.C12.p256_canon", "Frost.C12.secp256k1_canon", "Frost.C12.ed448_canon", "Frost.C12.ed25519_canon", "Frost.C12.ed25519_noncanonical_rejected", "Frost.C12.p25519_prime", "Frost.C12.toy31_instance", "Frost.C12.json_keyPackage_none_iff", "Frost.C12.json_commitments_none_iff"]
+THEOREMS = ["Frost.C12.decVarint_encVarint", "Frost.C12.decU16_encU16", "Frost.C12.decUsize_encUsize", "Frost.C12.header_accept_iff", "Frost.C12.header_reject", "Frost.C12.keyPackage_needs_header", "Frost.C12.rt_commitments", "Frost.C12.rt_nonces", "Frost.C12.rt_package", "Frost.C12.rt_secretShare", "Frost.C12.rt_keyPackage", "Frost.C12.rt_publicKeyPackage", "Frost.C12.rt_round1Package", "Frost.C12.rt_round2Package", "Frost.C12.rt_round1Secret", "Frost.C12.rt_round2Secret", "Frost.C12.default_signature_laws", "Frost.C12.ofList_sorted", "Frost.C12.primScalar_canonical", "Frost.C12.primElem_canonical", "Frost.C12.primScalar_injective", "Frost.C12.primElem_injective", "Frost.C12.signature_canonical", "Frost.C12.signature_wrong_length", "Frost.C12.identifier_rejects_zero", "Frost.C12.signingKey_rejects_zero", "Frost.C12.prim_wrong_length", "Frost.C12.fq_laws_le", "Frost.C12.fq_laws_be", "Frost.C12.ed448_scalar_last_byte", "Frost.C12.sec1_tag", "Frost.C12.sec1_canonical", "Frost.C12.p256_canon", "Frost.C12.secp256k1_canon", "Frost.C12.ed448_canon", "Frost.C12.ed25519_canon", "Frost.C12.ed25519_noncanonical_rejected", "Frost.C12.p25519_prime", "Frost.C12.toy31_instance", "Frost.C12.taproot_signature_wrong_length", "Frost.C12.taproot_signature_canonical", "Frost.C12.json_keyPackage_none_iff", "Frost.C12.json_commitments_none_iff"]
 RULE = ("one case = one (suite, wire type, value) round trip in binary or JSON form, one deviation of a container encoding (header byte, truncation, bit flip, byte substitution, trailing bytes), "
         "or one byte string offered to a fixed-size primitive decoder (valid encoding, single-bit / single-byte deviation, every leading tag byte, special values, wrong lengths, random strings); "
         "non-trivial = the decoder ran on the bytes (every case); distinct = hash of the request")
